@@ -187,25 +187,7 @@ def run(chk, ctx):
     chk.floor('C05.M', 8, 'method wire types')
 
     # ---- no validation on receive
-    keys = [k for k, _ in ctx.index_mapping()]
-    nval = 0
-    bad = []
-    for k in keys:
-        f = F.UnmarshalFacts(ctx, k, assume_type=1)
-        for callee, chain, _seq in f.it.calls:
-            name = callee.split(' ')[0]
-            if name.endswith('.validate'):
-                nval += 1
-                if not any(c.endswith('.__init__') for c in chain):
-                    bad.append('%s via %s' % (name,
-                                              '<-'.join(reversed(chain))))
-    f0 = F.UnmarshalFacts(ctx, None)
-    for callee, chain, _seq in f0.it.calls:
-        name = callee.split(' ')[0]
-        if name.endswith('.validate'):
-            nval += 1
-            if not any(c.endswith('.__init__') for c in chain):
-                bad.append('%s via %s' % (name, '<-'.join(reversed(chain))))
+    nval, bad = F.validation_on_receive(ctx)
     chk.ob('C05.V', 'frame.unmarshal call graph', not bad,
            '%d validate() activations, all inside an argument-less '
            'constructor' % nval if not bad else
@@ -310,6 +292,15 @@ def run(chk, ctx):
         chk.ob('C05.Z', ts.short, okk and prop,
                fact + '; conversion failures propagate: %s' % sorted(esc),
                site=site)
+    from .. import tsrules
+    chk.rule('C05.W', 'multi-word property flags: word k lands at bits '
+             '16k..16k+15, so the first word (where all 14 flag masks '
+             'are) is not displaced by continuation words')
+    for cons, okk, why in tsrules.flag_word_rule(ctx):
+        if okk is None:
+            chk.undecide('C05.W', cons, why)
+        else:
+            chk.ob('C05.W', cons, okk, why, site='pamqp/header.py')
     chk.assume('values assigned by the library conversions (Decimal, '
                'float, datetime) are the reference values')
 
